@@ -107,6 +107,10 @@ def build_step(st, k, log, workdir):
         return DF.add_field('f%d' % k, 'integer', 5)
     if t == 'set_type':
         return DF.set_type('v', type='number')
+    if t == 'unique':               # a field declared unique (its values are): a constraint, not a reason to hold rows back
+        return DF.set_type('_i', type='integer', constraints={'unique': True})
+    if t == 'required':
+        return DF.set_type('s', type='string', constraints={'required': True, 'minLength': 1})
     if t == 'expand':               # unpivot-like: two rows per row, via a user rows function without effects
         def ex(rows):
             for r in rows:
@@ -238,7 +242,7 @@ def coq_step(st, k):
         return '(lmap (fun p r => [EEff %d 0; ERow p r]))' % k
     if t == 'filter':
         return '(lmap (fun p r => if Nat.eqb (Nat.modulo p %d) 0 then [] else [ERow p r]))' % st['mod']
-    if t in ('add_field', 'set_type', 'dump', 'stream', 'checkpoint'):
+    if t in ('add_field', 'set_type', 'dump', 'stream', 'checkpoint', 'unique', 'required'):
         return '(fun s => s)'
     if t == 'expand':
         return '(lmap (fun p r => [ERow p r; ERow p r]))'
